@@ -529,7 +529,7 @@ inline std::string signature(const std::string& msg)
 {
     // failure class = message up to the first ':' or 60 chars, digits squashed
     std::string s = msg.substr(0, msg.find("  ["));
-    size_t p = s.find(':');
+    size_t p = s.find_first_of(":(");
     if (p != std::string::npos)
         s = s.substr(0, p);
     if (s.size() > 80)
